@@ -117,7 +117,7 @@ func runC12(c *Ctx) {
 	for typ, f := range c.applyFuncs("C12.R1") {
 		ok := true
 		for _, r := range returnsOf(f) {
-			if !maySucceed(r) && c.Path(r.Results[0], nil) != "nil" {
+			if !maySucceed(r) && c.Path(r.Results[0], nil) != "nil" && !alwaysNilResult(r.Results[0]) {
 				ok = false
 			}
 		}
